@@ -178,6 +178,7 @@ func TestC31(t *testing.T) {
 		srcs = append(srcs, src{fmt.Sprintf("rand%d", i), id})
 	}
 	parsedOK := 0
+	edits := 0
 	// every third source hello is also checked in the form another stack would send it: with the
 	// signalling suites TLS_EMPTY_RENEGOTIATION_INFO_SCSV (0x00ff) and/or TLS_FALLBACK_SCSV (0x5600)
 	// in the cipher-suite list (harness-encoded copy; still a valid ClientHello)
@@ -327,12 +328,58 @@ func TestC31(t *testing.T) {
 				viol("remarshal_fields_differ", "parse / clear Raw / marshal / parse changes a field: "+d)
 			}
 		}
+		// the same on a parsed hello whose fields were edited in place (same shapes, other
+		// bytes): what is converted / marshaled are the struct's current values, not what
+		// an earlier conversion of the same object saw
+		{
+			pe := tls.UnmarshalClientHello(raw)
+			_ = tls.VerifRoundTripClientHello(pe) // the object has been converted once
+			flip := func(b []byte) {
+				for k := range b {
+					b[k] ^= 0x5a
+				}
+			}
+			for k := range pe.KeyShares {
+				pe.KeyShares[k].Data = append([]byte(nil), pe.KeyShares[k].Data...)
+				flip(pe.KeyShares[k].Data)
+			}
+			pe.Random = append([]byte(nil), pe.Random...)
+			flip(pe.Random)
+			pe.SessionId = append([]byte(nil), pe.SessionId...)
+			flip(pe.SessionId)
+			if len(pe.CipherSuites) > 1 {
+				pe.CipherSuites = append([]uint16(nil), pe.CipherSuites...)
+				pe.CipherSuites[0], pe.CipherSuites[len(pe.CipherSuites)-1] = pe.CipherSuites[len(pe.CipherSuites)-1], pe.CipherSuites[0]
+			}
+			want := *pe
+			conv := tls.VerifRoundTripClientHello(pe)
+			if d := semEqual(reflect.ValueOf(want), reflect.ValueOf(*conv), "PubClientHelloMsg", map[string]bool{"Raw": true}); d != "" {
+				viol("edited_hello_conversion_stale", "converting an edited, previously converted hello does not carry the edit: "+d)
+			}
+			pe.Raw = nil
+			if re, err := pe.Marshal(); err != nil {
+				viol("edited_hello_remarshal_error", err.Error())
+			} else if p2 := tls.UnmarshalClientHello(re); p2 == nil {
+				viol("edited_hello_remarshal_unparseable", "UnmarshalClientHello rejects the re-marshalled edited hello")
+			} else {
+				edits++
+				same := bytes.Equal(p2.Random, want.Random) && bytes.Equal(p2.SessionId, want.SessionId) && fmt.Sprint(p2.CipherSuites) == fmt.Sprint(want.CipherSuites) && len(p2.KeyShares) == len(want.KeyShares)
+				for k := 0; same && k < len(want.KeyShares); k++ {
+					same = p2.KeyShares[k].Group == want.KeyShares[k].Group && bytes.Equal(p2.KeyShares[k].Data, want.KeyShares[k].Data)
+				}
+				if !same {
+					viol("edited_hello_remarshal_stale", "parse / edit / clear Raw / marshal / parse does not yield the edited values (random, session id, suites or key shares)")
+				}
+			}
+		}
 		r.Case("hello|"+NormHello(ch, NormOpts{}), true)
 		if i < 2 {
 			r.Sample(map[string]any{"source": s.name, "len": len(raw)})
 		}
 	}
 	r.Count("hellos_roundtripped", int64(parsedOK))
+	r.Count("edited_hellos_remarshalled", int64(edits))
+	r.Floor("edited_hellos_remarshalled", 100)
 	r.Floor("hellos_roundtripped", 100)
 
 	// (b) conversions
